@@ -72,28 +72,30 @@ def ensure_engine():
         sys.exit(2)
 
 
-def harness_files(pkgkey):
+def harness_files(pkgkey, files=None):
+    """The harness sources overlaid into the package: all of them, or only those a group names (so that a change
+    to /repo that stops one harness file from compiling does not take unrelated harnesses down with it)."""
     d = os.path.join(VERIF, "harness", pkgkey)
-    return sorted(f for f in os.listdir(d) if f.endswith(".go"))
+    return sorted(f for f in os.listdir(d) if f.endswith(".go") and (files is None or f in files))
 
 
-def make_engine_overlay(pkgkey):
+def make_engine_overlay(pkgkey, files=None):
     """Directory with harness sources + the engine-side runtime stub."""
     _, pkgname = PKGS[pkgkey]
     d = workdir()
-    for f in harness_files(pkgkey):
+    for f in harness_files(pkgkey, files):
         shutil.copy(os.path.join(VERIF, "harness", pkgkey, f), os.path.join(d, f))
     rt = open(os.path.join(VERIF, "harness", "rt", "rt.go.tmpl")).read().replace("PKGNAME", pkgname)
     open(os.path.join(d, "rt.go"), "w").write(rt)
     return d
 
 
-def run_engine(pkgkey, jobs, workers=None, qtimeout_ms=20000, wall_timeout_s=3600, tests=False, tags=None):
+def run_engine(pkgkey, jobs, workers=None, qtimeout_ms=20000, wall_timeout_s=3600, tests=False, tags=None, files=None):
     """Runs all jobs for one package; returns the list of JobResult dicts."""
     ensure_engine()
     workers = workers or WORKERS
     pkgdir, _ = PKGS[pkgkey]
-    ov = make_engine_overlay(pkgkey)
+    ov = make_engine_overlay(pkgkey, files)
     wd = workdir()
     jf = os.path.join(wd, "jobs.json")
     of = os.path.join(wd, "out.json")
@@ -119,14 +121,14 @@ def run_engine(pkgkey, jobs, workers=None, qtimeout_ms=20000, wall_timeout_s=360
 _HARNESS_RE = re.compile(r"^func (Verif\w+)\(\)", re.M)
 
 
-def make_native_overlay(pkgkey):
+def make_native_overlay(pkgkey, files=None):
     """Overlay JSON mapping virtual files inside the repo package to real
     files: harness sources, native runtime, generated replay test."""
     pkgdir, pkgname = PKGS[pkgkey]
     d = workdir()
     names = []
     repl = {}
-    for f in harness_files(pkgkey):
+    for f in harness_files(pkgkey, files):
         src = os.path.join(VERIF, "harness", pkgkey, f)
         names += _HARNESS_RE.findall(open(src).read())
         repl[os.path.join(REPO, pkgdir, "zz_verif_" + f)] = src
@@ -145,13 +147,57 @@ def make_native_overlay(pkgkey):
     return ovp, d
 
 
-def native_replay(pkgkey, cases, case_timeout_ms=10000):
+def is_race_case(case):
+    """Harnesses named *Shared decide the concurrency clause: natively they run concurrent calls and are
+    replayed under the race detector."""
+    return case.get("harness", "").endswith("Shared")
+
+
+def native_replay_race(pkgkey, cases, case_timeout_ms=60000, files=None):
+    """One `go test -race` run per case; a data race reported by the detector is the native failure."""
+    pkgdir, _ = PKGS[pkgkey]
+    ovp, d = make_native_overlay(pkgkey, files)
+    out = []
+    tagargs = ["-tags", PKG_TAGS[pkgkey]] if pkgkey in PKG_TAGS else []
+    for k, case in enumerate(cases):
+        cf = os.path.join(d, "race%d.json" % k)
+        of = os.path.join(d, "raceres%d.json" % k)
+        json.dump([case], open(cf, "w"))
+        env = dict(GOENV, VERIF_REPLAY=cf, VERIF_REPLAY_OUT=of, VERIF_REPLAY_CASE_TIMEOUT_MS=str(case_timeout_ms))
+        try:
+            r = subprocess.run(["go", "test", "-race"] + tagargs + ["-vet=off", "-count=1", "-run", "^TestVerifReplay$", "-overlay", ovp, "."],
+                               cwd=os.path.join(REPO, pkgdir), env=env, capture_output=True, text=True, timeout=900)
+        except subprocess.TimeoutExpired:
+            raise RuntimeError("native race replay timed out")
+        text = r.stdout + r.stderr
+        if not os.path.exists(of):
+            raise RuntimeError("native race replay failed:\n" + text[-3000:])
+        res = json.load(open(of))[0]
+        if "WARNING: DATA RACE" in text or "concurrent map" in text:
+            i = text.find("WARNING: DATA RACE")
+            res["outcome"] = "assert_fail"
+            res["failed"] = list(res.get("failed") or []) + [case.get("tag", "")]
+            res["race_report"] = text[i:i + 1500]
+        out.append(res)
+    return out
+
+
+def native_replay(pkgkey, cases, case_timeout_ms=10000, files=None):
     """Runs the cases natively against the real build. Returns a list of
     result dicts (same order) or raises RuntimeError on build failure."""
     if not cases:
         return []
+    if any(is_race_case(c) for c in cases):
+        res = [None] * len(cases)
+        ri = [i for i, c in enumerate(cases) if is_race_case(c)]
+        oi = [i for i, c in enumerate(cases) if not is_race_case(c)]
+        for i, r in zip(ri, native_replay_race(pkgkey, [cases[i] for i in ri], files=files)):
+            res[i] = r
+        for i, r in zip(oi, native_replay(pkgkey, [cases[i] for i in oi], case_timeout_ms, files=files)):
+            res[i] = r
+        return res
     pkgdir, _ = PKGS[pkgkey]
-    ovp, d = make_native_overlay(pkgkey)
+    ovp, d = make_native_overlay(pkgkey, files)
     results = [None] * len(cases)
     todo = list(range(len(cases)))
     rounds = 0
